@@ -11,6 +11,7 @@ import math
 
 from mc import alpha
 from mc.env import guard
+from mc.state import track_extras
 from mc.explore import bfs
 from tracklib.core.track import Track
 from tracklib.core.obs import Obs
@@ -35,6 +36,7 @@ SIZES = [1, 2, 3]
 DEPTH = {"quick": 3, "thorough": 4}
 
 OBLIGATIONS = {
+    "expression_through_brackets": "an expression (with and without '=') was evaluated through track[\"...\"]",
     "delete_non_last_then_read": "a history deletes a feature that is not the last column and another one is read afterwards",
     "delete_then_recreate": "a history deletes a name and creates it again",
     "expr_after_delete": "an expression is evaluated after a deletion",
@@ -127,7 +129,14 @@ def _exprs():
     E.append(("z=a+1", "z", ["a"], lambda M: [p + 1 for p in A(M, "a")]))
     E.append(("y=y+b", "y", ["b"], lambda M: [p + q for p, q in zip(M["y"], A(M, "b"))]))
     E.append(("b=a*a-c", "b", ["a", "c"], lambda M: [p * p - q for p, q in zip(A(M, "a"), A(M, "c"))]))
+    # comparisons (1.0 / 0.0): the only operators that are not arithmetic signs
+    E.append(("a>b", None, ["a", "b"], lambda M: [1.0 if p > q else 0.0 for p, q in zip(A(M, "a"), A(M, "b"))]))
+    E.append(("c=a<b", "c", ["a", "b"], lambda M: [1.0 if p < q else 0.0 for p, q in zip(A(M, "a"), A(M, "b"))]))
     return E
+
+
+# the same expression asked through the bracket form track["..."] (documented alias of operate for a string that is not a name)
+BRACKET_EXPRS = ["a>b", "c=a<b", "a+b*2", "c=a+b", "b=(b)", "c=I{a}+SUM{b}", "a=x+b"]
 
 
 EXPRS = {e[0]: e for e in _exprs()}
@@ -157,6 +166,7 @@ def _events(N, variant):
            ["scalar", "SCALAR_ADDER", "b", "s", "c"]]
     ev += [["nonvoid", "SUM", "a"], ["nonvoid", "MAX", "b"]]
     ev += [["expr", e[0]] for e in _exprs()]
+    ev += [["bexpr", e] for e in BRACKET_EXPRS]
     ev.append(["derive", "spantime"])
     return [tuple(e) for e in alpha.order(variant, ev)]
 
@@ -208,6 +218,8 @@ def apply_event(N, variant):
             return t.operate(getattr(Operator, ev[1]), ev[2])
         elif k == "expr":
             return t.operate(ev[1])
+        elif k == "bexpr":
+            return t[ev[1]]
         elif k == "derive":
             # a track cut out of t (extractSpanTime copies the observations and carries the feature table over) gets a new
             # feature and loses its first one: t itself must not notice
@@ -236,7 +248,7 @@ def canon(t):
     rows = tuple(tuple(repr(v) for v in o.features) for o in t.getObsList()) if hasattr(t, "getObsList") else \
         tuple(tuple(repr(v) for v in o.features) for o in t)
     r = lambda L: tuple(repr(float(v)) for v in L)     # repr: NaN must compare equal to itself
-    return (names, rows, r(t.getX()), r(t.getY()), r(t.getZ()), r(t.getT()))
+    return (names, rows, r(t.getX()), r(t.getY()), r(t.getZ()), r(t.getT()), track_extras(t))
 
 
 def clone(t):
@@ -277,10 +289,18 @@ def _eq(u, v):
                 continue
             if abs(p - q) <= 1e-9 * max(1.0, abs(q)):
                 continue
-        except TypeError:
+        except (TypeError, ValueError):     # ValueError: a cell that holds an array
             pass
         return False
     return True
+
+
+def _container_cell(values):
+    """Index of the first cell that holds a collection instead of one value, or None."""
+    for i, v in enumerate(values):
+        if isinstance(v, (list, tuple, dict, set)) or (hasattr(v, "shape") and getattr(v, "shape", ()) != ()):
+            return i
+    return None
 
 
 # ---------------------------------------------------------------------------
@@ -340,7 +360,7 @@ def step(M, ev, C):
         return ("defined", out)
     if k == "derive":
         return ("defined", out)
-    if k == "expr":
+    if k in ("expr", "bexpr"):
         text, lhs, operands, fn = EXPRS[ev[1]]
         if any(o not in af for o in operands):
             return ("undefined", lhs)
@@ -395,6 +415,8 @@ def compare_undefined(M, out_name, got):
 
 
 def ev_kind(ev):
+    if ev[0] == "bexpr":
+        return "bracket-expr=" if "=" in ev[1] else "bracket-expr"
     return ev[0] if ev[0] != "expr" else ("expr=" if "=" in ev[1] else "expr")
 
 
@@ -424,7 +446,7 @@ def make_check(ctx, N, variant, root_case):
                               {"expected": payload["af"], "got": got["af"], "x": got["x"],
                                "result": res[1] if res[0] != "ok" else "ok"})
                 return False
-            if ev[0] == "expr" and EXPRS[ev[1]][1] is None and res[0] == "ok":
+            if ev[0] in ("expr", "bexpr") and EXPRS[ev[1]][1] is None and res[0] == "ok":
                 exp_vals = EXPRS[ev[1]][3](M)
                 if not isinstance(res[1], list) or not _eq(exp_vals, res[1]):
                     ctx.violation("expr/returned-values-differ", case, {"expected": exp_vals, "got": res[1]})
@@ -437,7 +459,7 @@ def make_check(ctx, N, variant, root_case):
                 ctx.violation("%s/undefined-input/%s" % (ev_kind(ev), why), case,
                               {"before": M["af"], "got": got["af"], "result": res[1] if res[0] != "ok" else "ok"})
                 return False
-            if ev[0] == "expr" and res[0] == "exc" and ("{" in ev[1] or "(" in ev[1] or "/" in ev[1]):
+            if ev[0] in ("expr", "bexpr") and res[0] == "exc" and ("{" in ev[1] or "(" in ev[1] or "/" in ev[1]):
                 ctx.oblige("expr_raises_midway")
         # ---- coverage obligations ---------------------------------------------------
         if ev[0] in ("remove", "del") and ev[1] in M["af"]:
@@ -447,11 +469,13 @@ def make_check(ctx, N, variant, root_case):
         if dels:
             if ev[0] in ("create", "set", "func") and ev[1] in dels and ev[1] not in M["af"]:
                 ctx.oblige("delete_then_recreate")
-            if ev[0] == "expr":
+            if ev[0] in ("expr", "bexpr"):
                 ctx.oblige("expr_after_delete")
         if ev[0] == "derive" and len(M["names"]) >= 2 and res[0] == "ok":
             ctx.oblige("derived_track_edited")
-        if ev[0] == "expr" and kind == "defined":
+        if ev[0] == "bexpr" and kind == "defined":
+            ctx.oblige("expression_through_brackets")
+        if ev[0] in ("expr", "bexpr") and kind == "defined":
             lhs, ops = EXPRS[ev[1]][1], EXPRS[ev[1]][2]
             if ev[1] in ("a=a", "b=(b)"):
                 ctx.oblige("self_assignment")
@@ -529,6 +553,11 @@ def check_alias(variant, n, name, kind, form, ctx):
         ctx.violation(key + bad, case, {"listed": t2.getListAnalyticalFeatures()})
         return
     want = list(t1.getAnalyticalFeature("fresh"))
+    ci = _container_cell(want)
+    if ci is not None:
+        ctx.violation("operator/%s/observation-holds-a-collection-instead-of-one-value" % name, case,
+                      {"observation": ci, "holds": repr(want[ci])[:120]})
+        return
     got = read_model(t2)
     if tgt not in got["af"] or not _eq(want, got["af"][tgt]):
         ctx.violation(key + "values-differ-from-the-same-operator-written-to-a-new-name", case,
